@@ -352,6 +352,12 @@ class Report:
         if self.notes:
             self.coverage["notes"] = self.notes
         self.coverage["known_findings_reproduced"] = sorted(self.known_hit)
+        try:
+            from . import privnames
+            if privnames.RENAMED:
+                self.coverage["renamed_private_names"] = dict(sorted(privnames.RENAMED.items()))
+        except Exception:  # noqa: BLE001
+            pass
         ev = {
             "property_id": self.prop, "tier": self.tier, "seed": self.seed, "level": self.level,
             "coverage": self.coverage, "assumptions": self.assumptions, "wall_s": round(wall, 2),
